@@ -145,7 +145,17 @@ def ClassOutcome (neg : Bool) (v X : Nat) (FLAG : Bool) (fin : Nat) (res : Optio
   ∃ r, res = some r ∧ r.offset = fin ∧
     ((r.kind = .notANumber ∧ (if FLAG then v * 2 ^ 1074 < 10 ^ X else (2 ^ 53 - 1) * 2 ^ 971 < v * 10 ^ X)) ∨
      (r.kind = .real ∧ r.bits / 2 ^ 63 = b2n neg ∧
-        ulpDist (r.bits % 2 ^ 63) (if FLAG then nearestMag v (10 ^ X) else nearestMag (v * 10 ^ X) 1) ≤ 1))
+        ulpDist (r.bits % 2 ^ 63) (if FLAG then nearestMag v (10 ^ X) else nearestMag (v * 10 ^ X) 1) ≤ 1 ∧
+        ((if FLAG then (2 ^ 53 - 1) * 2 ^ 971 * 10 ^ X < v else (2 ^ 53 - 1) * 2 ^ 971 < v * 10 ^ X) →
+          r.bits % 2 ^ 63 = maxFiniteBits ∨ infBits ≤ r.bits % 2 ^ 63)))
+
+/-- a value `v / 10^X` with `v < 2^64·c`… never exceeds the largest finite double: helper for the overflow clause -/
+theorem no_overflow_small (v X : Nat) (hv : v < 2 ^ 64) : ¬ ((2 ^ 53 - 1) * 2 ^ 971 * 10 ^ X < v) := by
+  intro h
+  have h1 : 1 ≤ 10 ^ X := Nat.pow_pos (by decide)
+  have h2 : (2 ^ 53 - 1) * 2 ^ 971 * 1 ≤ (2 ^ 53 - 1) * 2 ^ 971 * 10 ^ X := Nat.mul_le_mul_left _ h1
+  have h3 : (2 : Nat) ^ 64 ≤ (2 ^ 53 - 1) * 2 ^ 971 * 1 := by decide +kernel
+  omega
 
 theorem realResult_class (neg : Bool) (v n X : Nat) (FLAG : Bool) (off : Nat) (hv0 : 0 < v) (hv : v < 2 ^ 64)
     (hlo : 10 ^ (n - 1) ≤ v) (hhi : v < 10 ^ n) (hn1 : 1 ≤ n) (hn19 : n ≤ 19) (hX : X < 2 ^ 31)
@@ -153,16 +163,24 @@ theorem realResult_class (neg : Bool) (v n X : Nat) (FLAG : Bool) (off : Nat) (h
     ClassOutcome neg v X FLAG off (realResult neg v n X FLAG off) := by
   cases FLAG with
   | false =>
-    rcases realResult_pos neg v n X off hv0 hv hlo hn1 hX hn19 with ⟨_, h2, h3⟩ | ⟨_, p, h2, h3, h4, _⟩
+    rcases realResult_pos neg v n X off hv0 hv hlo hn1 hX hn19 with ⟨_, h2, h3⟩ | ⟨_, p, h2, h3, h4, h5⟩
     · exact ⟨_, h2, rfl, Or.inl ⟨rfl, by simpa using h3⟩⟩
-    · refine ⟨_, h2, rfl, Or.inr ⟨rfl, or_sign_div p neg h3, ?_⟩⟩
-      simp only [Bool.false_eq_true, if_false]
-      rw [or_sign_mod p neg h3]; exact h4
+    · refine ⟨_, h2, rfl, Or.inr ⟨rfl, or_sign_div p neg h3, ?_, ?_⟩⟩
+      · simp only [Bool.false_eq_true, if_false]
+        rw [or_sign_mod p neg h3]; exact h4
+      · simp only [Bool.false_eq_true, if_false]
+        rw [or_sign_mod p neg h3]
+        intro hov
+        rcases h5 (Nat.le_of_lt hov) with h | h
+        · exact Or.inl h
+        · exact Or.inr (by rw [h])
   | true =>
     rcases realResult_neg neg v n X off hv0 (hcond rfl) hv hhi hn19 hX with ⟨_, h2, h3⟩ | ⟨_, p, h2, h3, h4⟩
     · exact ⟨_, h2, rfl, Or.inl ⟨rfl, by simpa using h3⟩⟩
-    · refine ⟨_, h2, rfl, Or.inr ⟨rfl, or_sign_div p neg h3, ?_⟩⟩
-      simp only [if_true]
-      rw [or_sign_mod p neg h3]; exact h4
+    · refine ⟨_, h2, rfl, Or.inr ⟨rfl, or_sign_div p neg h3, ?_, ?_⟩⟩
+      · simp only [if_true]
+        rw [or_sign_mod p neg h3]; exact h4
+      · simp only [if_true]
+        intro hov; exact absurd hov (no_overflow_small v X hv)
 
 end Qentem.StrToNum
